@@ -60,7 +60,9 @@ def C(name, params=(), kind='plain', bases=(), abstract=False, extra=False,
       init_raises=False, attrs_private=False, ydefaults=()):
     return {
         'name': name, 'kind': kind, 'bases': list(bases),
-        'abstract': abstract, 'extra': extra,
+        'abstract': bool(abstract),
+        'absflavor': abstract if isinstance(abstract, str) else '',
+        'extra': extra,
         'params': list(params), 'members': list(members),
         'rejects': list(rejects),
         'hasrecog': recog is not None, 'recog': recog or ['auto'],
@@ -86,7 +88,8 @@ S_BLUE = ['str', 'blue']
 def M(mid, classes, doctypes, keys, scalars, reg=None, qtags=('seq',),
       mtags=('map',), oddkeys=(), stags=(), family='load', note='',
       qn=4, tn=5, strs=(), dump=True, rtypes=None,
-      qo=4, to=5):
+      qo=4, to=5, an=None, rootk='', nodup=False, aliask=('s', 'q', 'm'),
+      cyc=True):
     names = [c['name'] for c in classes]
     return {
         'id': mid, 'classes': classes,
@@ -97,7 +100,8 @@ def M(mid, classes, doctypes, keys, scalars, reg=None, qtags=('seq',),
         'qtags': list(qtags), 'mtags': list(mtags),
         'oddkeys': [list(s) for s in oddkeys],
         'family': family, 'note': note, 'qn': qn, 'tn': tn,
-        'strs': list(strs), 'dump': dump, 'qo': qo, 'to': to,
+        'strs': list(strs), 'dump': dump, 'qo': qo, 'to': to, 'an': an if an is not None else qn,
+        'rootk': rootk, 'nodup': nodup, 'aliask': list(aliask), 'cyc': cyc,
         'rtypes': list(doctypes if rtypes is None else rtypes),
     }
 
@@ -188,8 +192,8 @@ def models():
     ts = C('Ts', [P('a', INT)], sav=['to_scalar', 'str', 'zz'])
     ms.append(M('adversarial', [pr, cs, ct, rs, ts],
                 [K('Pr'), K('Cs'), K('Ct'), K('Rs'), K('Ts'), L(K('Pr'))],
-                keys=['a', 'b', 'k'], scalars=[S_42, S_ABC],
-                mtags=('map', '!Pr'), rtypes=[]))
+                keys=['a', 'b', 'k'], scalars=[S_42, S_ABC, S_TRUE],
+                mtags=('map', '!Pr'), rtypes=[], qn=5, tn=5))
     # ---- parsed class: scalar_to_mapping recipe ----------------------------
     pa = C('Pa', [P('txt', STR)], recog=['require_scalar_str'],
            sav=['scalar_to_mapping', 'txt'])
@@ -215,6 +219,84 @@ def models():
     ir = C('Ir', [P('a', INT)], init_raises=True)
     ms.append(M('raising', [ir, sl], [K('Ir'), K('Sl'), L(K('Ir'))],
                 keys=['a'], scalars=[S_42, S_ABC], rtypes=[]))
+
+    # ---- required parameter whose type admits None --------------------------
+    oq = C('Oq', [P('a', Opt(INT)), P('b', INT, ['int', '0'])])
+    ms.append(M('optreq', [oq], [K('Oq'), L(K('Oq'))], keys=['a', 'b'],
+                scalars=[S_42, S_NULL, S_ABC], qn=5, tn=6))
+    # ---- three concrete levels, every level adds a required attribute -------
+    b3 = C('B3', [P('a', INT)])
+    m3 = C('M3', [P('a', INT), P('b', INT)], bases=['B3'])
+    l3 = C('L3', [P('a', INT), P('b', INT), P('c', INT)], bases=['M3'])
+    ms.append(M('chain', [b3, m3, l3], [K('B3'), K('M3'), U(K('B3'), STR)],
+                keys=['a', 'b', 'c'], scalars=[S_42],
+                mtags=('map', '!B3', '!M3', '!L3'), qn=5, tn=7,
+                rtypes=[], rootk='m', nodup=True))
+    # ---- abstract class declared as class X(Mixin, ABC) ----------------------
+    ax = C('Ax', [P('n', INT)], abstract='abc_second')
+    cx = C('Cx', [P('n', INT), P('r', INT)], bases=['Ax'])
+    lb = C('Lb', [P('t', STR)])
+    ms.append(M('absmix', [ax, cx, lb], [K('Ax'), U(K('Ax'), K('Lb')),
+                                        L(K('Ax'))],
+                keys=['n', 'r', 't'], scalars=[S_42, S_ABC],
+                mtags=('map', '!Ax', '!Cx'), qn=5, tn=6, rtypes=[K('Cx')]))
+    # ---- unknown key with a tagged value, class without _yatiml_extra --------
+    p2 = C('P2', [P('x', INT)])
+    i2 = C('I2', [P('v', INT)])
+    ms.append(M('unk', [p2, i2], [K('P2')], keys=['x', 'z', 'v'],
+                scalars=[S_42], mtags=('map', '!I2'), qn=7, tn=7,
+                rtypes=[], rootk='m', nodup=True))
+    # ---- custom recogniser + Any attribute + duplicate key -------------------
+    cr = C('Cr', [P('value', ANY)], recog=['require_mapping'])
+    pl = C('Pl', [P('c', INT)])
+    ms.append(M('dupany', [cr, pl], [K('Cr')], keys=['value', 'c'],
+                scalars=[S_42], mtags=('map', '!Pl'), qn=7, tn=7,
+                rtypes=[], rootk='m'))
+    # ---- unregistered mix-ins with hooks, listed before / after the parent ---
+    mx = C('Mx', kind='mixin', sav=['none'], swe=['none'])
+    s2 = C('S2', [P('n', INT)], sav=['rename', 'nn', 'n'], swe=['none'])
+    c2 = C('C2', [P('n', INT), P('r', INT, ['int', '0'])], bases=['Mx', 'S2'],
+           sav=['rename', 'rr', 'r'], swe=['none'])
+    d2 = C('D2', [P('n', INT), P('r', INT, ['int', '0']),
+                  P('q', INT, ['int', '0'])], bases=['C2', 'Mx'],
+           sav=['none'])
+    ms.append(M('mixin', [mx, s2, c2, d2], [K('S2'), L(K('S2'))],
+                reg=['S2', 'C2', 'D2'],
+                keys=['n', 'nn', 'r', 'rr', 'q'], scalars=[S_42],
+                qn=5, tn=6, rtypes=[]))
+    # ---- two registered bases whose hooks do not commute ---------------------
+    ma = C('Ma', [P('a', INT)], sav=['set_attr', 'k', 'str', 'abc'],
+           swe=['set_attr', 'k', 'str', 'abc'])
+    mb = C('Mb', [P('a', INT)], sav=['set_attr', 'k', 'str', 'zz'],
+           swe=['set_attr', 'k', 'str', 'zz'])
+    mc = C('Mc', [P('a', INT), P('k', STR, ['str', 'd'])],
+           bases=['Ma', 'Mb'], recog=['require_attr', 'a'])
+    ms.append(M('multi', [ma, mb, mc], [K('Mc')], keys=['a', 'k'],
+                scalars=[S_42, S_ABC], qn=5, tn=5, rtypes=[]))
+    # ---- a node used at a class position and at an Any position --------------
+    iy = C('Iy', [P('v', INT)])
+    my = C('My', [P('t', K('Iy')), P('u', ANY)])
+    ny = C('Ny', [P('u', ANY), P('t', K('Iy'))])
+    ms.append(M('mixany', [iy, my, ny], [K('My'), K('Ny')],
+                keys=['t', 'u', 'v'],
+                scalars=[S_42], qn=3, tn=3, an=7, rtypes=[], rootk='m',
+                nodup=True, aliask=('m',), cyc=False))
+    # ---- savorize that normalises a scalar with set_value -------------------
+    sv = C('Sv', kind='strlike', sav=['to_scalar', 'str', 'zz'])
+    hs = C('Hs', [P('label', STR), P('level', K('Sv'))])
+    ms.append(M('setval', [sv, hs], [L(K('Sv')), K('Hs')],
+                keys=['label', 'level'], scalars=[S_ABC], qn=3, tn=3,
+                an=5, rtypes=[]))
+    # ---- nested classes for error positions ----------------------------------
+    inn = C('Inn', [P('a', INT), P('b', STR)])
+    out = C('Out', [P('i', K('Inn')), P('l', L(K('Inn'))),
+                    P('o', Opt(K('Inn')), ['null']),
+                    P('c', Opt(K('Col2')), ['null'])])
+    col2 = C('Col2', kind='enum', members=['red', 'blue'])
+    ms.append(M('nested', [col2, inn, out], [K('Out')],
+                keys=['a', 'b', 'i', 'l', 'o', 'c'],
+                scalars=[S_42, S_ABC, S_RED], strs=['abc'], qn=1, tn=1,
+                qo=12, to=14))
     # ---- dump / round-trip families ----------------------------------------
     ms.append(M('strings', [], [STR, ANY, PATH], keys=['abc'], scalars=[S_ABC],
                 family='dump', qn=1, tn=1))
@@ -228,11 +310,14 @@ def models():
                 family='dump', qn=1, tn=1))
     df = C('Df', [P('a', INT), P('n', Opt(INT), ['null']),
                   P('s', STR, ['str', 'abc']), P('i', INT, ['int', '42']),
-                  P('b', BOOL, ['bool', 'true'])],
+                  P('b', BOOL, ['bool', 'true']),
+                  P('t', Opt(STR), ['null']),
+                  P('w', U(INT, STR), ['int', '42'])],
            swe=['remove_defaults', 'Df'])
-    ms.append(M('defaults', [df], [K('Df')], keys=['a', 'n', 's', 'i', 'b'],
-                scalars=[S_42, S_ABC], strs=['abc', '42'], family='dump',
-                qn=1, tn=1, qo=7, to=8))
+    ms.append(M('defaults', [df], [K('Df')],
+                keys=['a', 'n', 's', 'i', 'b', 't', 'w'],
+                scalars=[S_42, S_ABC], strs=['abc', '42', 'None', 'true'],
+                family='dump', qn=1, tn=1, qo=9, to=10))
     iv = C('Iv', [P('my_attr', INT), P('o_p', STR, ['str', 'd'])],
            sav=['dashes_to_unders'], swe=['unders_to_dashes'])
     rn = C('Rn', [P('p', INT)], recog=['require_attr', 'pp'],
@@ -314,7 +399,7 @@ IMPLICIT = {
 
 
 POOL = {
-    'str': ['abc', '42', 'true', 'null', '1e5', '2020-01-02', 'yes', '',
+    'str': ['abc', '42', 'true', 'null', 'None', 'True', '1e5', '2020-01-02', 'yes', '',
             '- x', 'a: b', '#c', ' lead', '1.5', '~', '.inf', '<<', '0x1F',
             "it's", 'multi\nline', '\u00e9\u4e2d', '1_000', '=', '0o7', '+.5',
             '1E+5', '.5', '-.0', '12e03'],
